@@ -39,7 +39,13 @@ def replay_obligation(prop, unit, ob):
         "line": ob.get("line"), "repo_head": _repo_head(), "adapter": "value",
     }
     reproduced, detail = None, None
-    if ob.get("model") is not None and "__error__" not in (ob.get("model") or {}):
+    if ob.get("native_failure") is not None:
+        # observed on the real code by a native bounded run: the failing inputs are the replay
+        rec["adapter"] = "native-script"
+        rec["native_failure"] = ob["native_failure"]
+        rec["how_to_rerun"] = f"cd /verif && PYTHONPATH=/verif:{driver.REPO} /venv/bin/python {ob['native_failure']['script']}"
+        reproduced, detail = True, {"reproduced": True, "failed": ob["native_failure"]["failures"][:3]}
+    elif ob.get("model") is not None and "__error__" not in (ob.get("model") or {}):
         try:
             with open(path, "w") as f:
                 json.dump(rec, f, indent=1, default=str)
